@@ -44,8 +44,9 @@ def run(p: Program, rep: Report, tier: str) -> None:
         "stores the new value in both, append adds the pair and makes it the last value, setlist stores the last of the "
         "values, delete removes the key from both) or delegates to an audited dunder; R17.2 the constructor builds both from "
         "one fresh list; R17.3 no method hands out the internal list/dict; R17.4 pop/popitem/clear/update/setdefault are the "
-        "inherited MutableMapping mixins and the read views are split as the statement says. NOT decided: equality with the "
-        "list-of-pairs model for all operation sequences (values), the str/parse round trip of QueryParams."
+        "inherited MutableMapping mixins and the read views are split as the statement says. R17.7 str(QueryParams) percent-escapes "
+        "with the codec the parser unquotes with; R17.8 == compares the pair lists with multiplicities. NOT decided: equality with the "
+        "list-of-pairs model for all operation sequences (values), the str/parse round trip of QueryParams beyond the codec agreement."
     )
     rep.assume("typing.MutableMapping mixins (pop, popitem, clear, update, setdefault) are implemented on top of __getitem__/__setitem__/__delitem__ (stdlib contract)")
     mm = p.cls(f"{DS}:MultiMapping")
@@ -367,3 +368,89 @@ def run(p: Program, rep: Report, tier: str) -> None:
     if len(sigs) > 1:
         rep.violation("R17.6", construct(qinit, text="str and bytes parsed with different settings"), where(qinit), f"QueryParams parses its input forms with different parser settings: {sorted(sigs)}")
     rep.require_instances("R17.6", 2)
+
+    # ---------------------------------------------------------------- R17.7 str(q) encodes with the codec the parser unquotes with
+    # "a query mapping parsed from its own string form equals itself": urlencode percent-escapes the UTF-8 bytes of the text by
+    # default and parse_qsl unquotes as UTF-8 by default (R17.6 pins the parser side). An explicit other codec on the encode side
+    # makes every non-ASCII pair come back as other text (or raises for text the codec cannot encode).
+    qstr = qp.methods.get("__str__")
+    if qstr is None:
+        rep.undecide("R17.7", "QueryParams.__str__ vanished (string form produced elsewhere)")
+    else:
+        rep.analysed(qstr.fq)
+        ecalls = []
+        for f_ in with_helpers(p, qstr):
+            for c in ast.walk(f_.node):
+                if isinstance(c, ast.Call) and ast.unparse(c.func).split(".")[-1] in ("urlencode", "quote", "quote_plus"):
+                    ecalls.append((f_, c))
+        if not ecalls:
+            rep.undecide("R17.7", "QueryParams.__str__: no urlencode/quote call found (string form built in an idiom outside the table)")
+        for f_, c in ecalls:
+            kws = {k.arg: k.value for k in c.keywords if k.arg}
+            enc = kws.get("encoding")
+            err = kws.get("errors")
+            if enc is None and err is None:
+                rep.ok("R17.7", f"{f_.fq}: `{ast.unparse(c)[:60]}` percent-escapes with the default codec (UTF-8), the one the parser unquotes with")
+            elif enc is not None and not (isinstance(enc, ast.Constant) and isinstance(enc.value, str)):
+                rep.undecide("R17.7", f"{f_.fq}: `{ast.unparse(c)[:60]}` encodes with a computed codec")
+            elif enc is not None and enc.value.lower().replace("_", "-") not in ("utf-8", "utf8"):
+                rep.violation("R17.7", construct(f_, text=f"urlencode with encoding={enc.value!r}"), where(f_, c),
+                              f"str(QueryParams) percent-escapes the {enc.value} bytes of the text while the parser unquotes percent-escapes as UTF-8: a pair with a non-ASCII "
+                              "character does not come back from QueryParams(str(q)) (or str(q) raises for text outside that codec)", positive=True)
+            elif err is not None and not (isinstance(err, ast.Constant) and err.value == "strict"):
+                rep.undecide("R17.7", f"{f_.fq}: `{ast.unparse(c)[:60]}` encodes with a non-default error handler")
+            else:
+                rep.ok("R17.7", f"{f_.fq}: `{ast.unparse(c)[:60]}` percent-escapes as UTF-8, the codec the parser unquotes with")
+    rep.require_instances("R17.7", 1)
+
+    # ---------------------------------------------------------------- R17.8 == compares the pair lists as multisets
+    # "its observable views agree with a plain ordered list of pairs ... ==": two mappings whose pair lists differ (as multisets) are
+    # different mappings - multi_items()/getlist() tell them apart. An equality that only asks whether every pair of one side
+    # occurs in the other (membership, sets, the last-value dict) calls [(a,1),(a,1),(a,2)] and [(a,1),(a,2),(a,2)] equal.
+    eq = mm.methods.get("__eq__")
+    if eq is None:
+        rep.undecide("R17.8", "MultiMapping.__eq__ vanished (equality inherited from Mapping compares the last-value view only)")
+    else:
+        rep.analysed(eq.fq)
+        rets = [n for n in walk_shallow(eq.node) if isinstance(n, ast.Return) and n.value is not None]
+        decided = False
+        for r in rets:
+            v = r.value
+            if isinstance(v, ast.Constant) or isinstance(v, ast.Name) and v.id == "NotImplemented":
+                continue
+            txt = ast.unparse(v)
+            lossy = None
+            for n in ast.walk(v):
+                if isinstance(n, ast.Call) and isinstance(n.func, ast.Name) and n.func.id in ("all", "any") and n.args and isinstance(n.args[0], ast.GeneratorExp) \
+                        and isinstance(n.args[0].elt, ast.Compare) and any(isinstance(o, (ast.In, ast.NotIn)) for o in n.args[0].elt.ops):
+                    lossy = "asks only whether every pair of one side occurs in the other (membership)"
+                elif isinstance(n, ast.Call) and isinstance(n.func, ast.Name) and n.func.id in ("set", "frozenset") and n.args and "_list" in ast.unparse(n.args[0]):
+                    lossy = "compares the pair lists as sets"
+                elif isinstance(n, ast.Compare) and len(n.comparators) == 1 and all(isinstance(x, ast.Attribute) and x.attr == "_dict" for x in (n.left, n.comparators[0])):
+                    lossy = "compares the last-value dicts only"
+            if lossy:
+                decided = True
+                rep.violation("R17.8", construct(eq, text=f"== {lossy.split(' (')[0]}"), where(eq, r),
+                              f"MultiMapping.__eq__ {lossy} (`{txt[:70]}`): pair lists with the same distinct pairs but other multiplicities - "
+                              "[(a,1),(a,1),(a,2)] and [(a,1),(a,2),(a,2)] - compare equal although multi_items()/getlist() differ", positive=True)
+                continue
+            cmpn = v if isinstance(v, ast.Compare) and len(v.ops) == 1 and isinstance(v.ops[0], ast.Eq) else None
+            if cmpn is not None:
+                l_, r_ = ast.unparse(cmpn.left), ast.unparse(cmpn.comparators[0])
+                def _shape(s: str) -> Optional[str]:
+                    for wrap in ("sorted", "Counter", "collections.Counter", "list", "tuple"):
+                        if s.startswith(wrap + "(") and s.endswith(")") and s[len(wrap) + 1:-1].split(".")[-1].rstrip("()") in ("_list", "multi_items"):
+                            return wrap.split(".")[-1]
+                    if s.split(".")[-1].rstrip("()") in ("_list", "multi_items"):
+                        return "list"
+                    return None
+                sl, sr = _shape(l_), _shape(r_)
+                if sl is not None and sl == sr:
+                    decided = True
+                    rep.ok("R17.8", f"MultiMapping.__eq__ compares the two pair lists with multiplicities (`{txt[:60]}`)")
+                    continue
+            rep.undecide("R17.8", f"MultiMapping.__eq__ returns `{txt[:70]}`, a comparison outside the idiom table (sorted/Counter/list of both pair lists)")
+            decided = True
+        if not decided:
+            rep.undecide("R17.8", "MultiMapping.__eq__ has no comparing return statement")
+    rep.require_instances("R17.8", 1)
